@@ -159,7 +159,7 @@ func (ps *pathState) decideV(c *Term, isVal bool, val uint64) bool {
 	idx := len(ps.decs)
 	if idx < len(ps.expected) {
 		if ps.expected[idx].Taken != v {
-			panic(engineError(fmt.Sprintf("path divergence at decision %d (expected %v)", idx, ps.expected[idx].Taken)))
+			panic(engineError(fmt.Sprintf("path divergence at decision %d (expected %v, isVal=%v val=%d): cond %s; model %v; pc: %s", idx, ps.expected[idx].Taken, ps.expected[idx].IsVal, ps.expected[idx].Val, termString(c, 6), ps.model, ps.pcString())))
 		}
 	} else {
 		if ps.cfg.MaxDecisions > 0 && idx >= ps.cfg.MaxDecisions {
@@ -208,9 +208,16 @@ func (ps *pathState) concretize(t *Term, what string) uint64 {
 	if limit <= 0 {
 		limit = 8
 	}
+	// If the path condition already pins the value, no decision is consumed
+	// (this must be checked before looking at the expected decisions, which
+	// belong to decision indices, not to this site).
+	vm := ps.ev.evalU(t)
+	if cm := ps.ts.Eq(t, ps.ts.BV(vm, t.sort.W)); isTrue(cm) || ps.pcSet[cm.id] {
+		return vm
+	}
 	for n := 0; ; n++ {
 		if n >= limit {
-			ps.markInconclusive(fmt.Sprintf("concretization cap %d exceeded for %s", limit, what))
+			ps.markInconclusive(fmt.Sprintf("concretization cap %d exceeded for %s: %s", limit, what, termString(t, 6)))
 			panic(pathAbort{kind: "inconclusive", msg: "concretize cap"})
 		}
 		idx := len(ps.decs)
